@@ -52,7 +52,7 @@ def _make(c, log, rec=True, shuffle=False):
             return stop
         cbs.append(cb)
     est = AdversarialFairnessRegressor(backend=Rec, predictor_model=[3, "relu"], adversary_model=[2, "sigmoid"], predictor_optimizer="SGD", adversary_optimizer="SGD",
-                                       learning_rate=0.1, alpha=0.7, epochs=c["ep"], batch_size=c["bs"], callbacks=cbs if rec else None, shuffle=shuffle, random_state=5)
+                                       learning_rate=0.02, alpha=0.7, epochs=c["ep"], batch_size=c["bs"], callbacks=cbs if rec else None, shuffle=shuffle, random_state=5)
     est.max_iter = c["mi"]
     return est
 
@@ -84,7 +84,7 @@ def run_cfg(c):
     if any(e["ev"] == "step" for e in events):
         p1 = list(est.backendEngine_.predictor_model.parameters()) + list(est.backendEngine_.adversary_model.parameters())
         p2 = list(est2.backendEngine_.predictor_model.parameters()) + list(est2.backendEngine_.adversary_model.parameters())
-        same = len(p1) == len(p2) and all(torch.equal(a, b) for a, b in zip(p1, p2))
+        same = len(p1) == len(p2) and all(a.shape == b.shape and torch.allclose(a, b, rtol=0, atol=0, equal_nan=True) for a, b in zip(p1, p2))
     return events, int(est.n_iter_), same
 
 
